@@ -18,7 +18,8 @@ class Scenario(apiworld.ApiWorld):
         self.p = params
         self.interval, self.timeout = params.get("config", (300.0, 330.0))
         self.max_beats = params.get("beats", 3)
-        self.used = {"eof": 0, "noise": 0, "unsolicited": 0}
+        self.used = {"eof": 0, "noise": 0, "unsolicited": 0, "outage": 0}
+        self.outage_until = None
         self.sent_responses = []        # times at which the console sent a version message
         self.faults = []                # (time, cid) environment faults
         self.console.answer_hook = self._hook
@@ -93,7 +94,9 @@ class Scenario(apiworld.ApiWorld):
 
     def side(self, k):
         sd = self.p.get("side", 1)
-        return sd.get(k, 0) if isinstance(sd, dict) else sd
+        if isinstance(sd, dict):
+            return sd.get(k, 0)
+        return 0 if k == "outage" else sd
 
     def enabled(self):
         acts = []
@@ -115,16 +118,32 @@ class Scenario(apiworld.ApiWorld):
                 acts.append(("noise",))
             if self.used["eof"] < self.side("eof"):
                 acts.append(("eof",))
+            if self.used["outage"] < self.side("outage"):
+                acts.append(("outage",))      # link lost and the console unreachable for longer than the timeout
         return acts
 
     def do(self, a):
         L = self.loop
         op = a[0]
+        if self.outage_until is not None and L.time() >= self.outage_until:
+            self.outage_until = None
+            self.net.auto = "accept"
         if op == "run":
             L.turn()
         elif op == "tick":
             L.advance_to(min(L.next_deadline(), self.t_end))
+            if self.outage_until is not None and L.time() >= self.outage_until:
+                self.outage_until = None
+                self.net.auto = "accept"
             L.turn()
+        elif op == "outage":
+            self.used["outage"] += 1
+            t = self.net.live()[-1]
+            self.faults.append((L.time(), t.cid))
+            self.net.auto = "refuse"
+            self.outage_until = L.time() + self.timeout + 1.0
+            self.t_end = max(self.t_end, self.outage_until + 2 * self.timeout + 3.0)
+            t.peer_eof()
         elif op in ("answer", "answer_at"):
             if op == "answer_at":
                 L.advance_to(a[1])
@@ -247,7 +266,7 @@ class Scenario(apiworld.ApiWorld):
 
     def fp_extra(self):
         now = self.loop.time()
-        return (worlds.net_state(self.net), tuple(sorted(self.used.items())),
+        return (worlds.net_state(self.net), tuple(sorted(self.used.items())), None if self.outage_until is None else round(self.outage_until - now, 6),
                 tuple(round(t - now, 6) for t in self.sent_responses[-3:]),
                 tuple(round(t - now, 6) for t, _ in self.pending_version), round(self.t_end - now, 6),
                 tuple(round(t - now, 6) for t, _ in self.faults))
@@ -266,12 +285,13 @@ def run(tier, seed, part=None):
                        "reconnects succeed immediately (connection faults are C07's subject)"]
     # (mode, (interval, timeout), heartbeats, side events allowed, max deviations)
     if tier == "quick":
-        plans = [("api", (300.0, 330.0), 2, 0, 0), ("api", (300.0, 330.0), 1, {"noise": 1}, 0), ("bare", (10.0, 15.0), 2, 0, 0), ("bare", (10.0, 10.5), 1, 1, 0),
+        plans = [("api", (300.0, 330.0), 2, 0, 0), ("api", (300.0, 330.0), 1, {"noise": 1}, 0), ("bare", (10.0, 15.0), 2, 0, 0), ("bare", (10.0, 10.5), 1, {"eof": 1, "unsolicited": 1}, 0), ("bare", (10.0, 15.0), 1, {"outage": 1}, 0),
                  ("bare", (10.0, 10.5), 2, 0, 0)]
         cap = 40
     else:
         plans = [("api", (300.0, 330.0), 3, 1, 0), ("api", (300.0, 330.0), 2, 1, 1), ("bare", (10.0, 15.0), 4, 0, 0),
-                 ("bare", (10.0, 15.0), 3, 1, 0), ("bare", (10.0, 10.5), 3, 1, 0), ("bare", (300.0, 330.0), 3, 0, 0)]
+                 ("bare", (10.0, 15.0), 3, 1, 0), ("bare", (10.0, 10.5), 3, 1, 0), ("bare", (300.0, 330.0), 3, 0, 0),
+                 ("bare", (10.0, 15.0), 2, {"outage": 1, "eof": 1}, 0), ("api", (300.0, 330.0), 1, {"outage": 1}, 0)]
         cap = 600
     for gen in (4, 5):
         for mode, cfg, beats, side, dev in plans:
